@@ -217,6 +217,17 @@ POSTOK = {"chain-add": 6, "chain-mul": 6, "nested-call": 6, "member": 4,
           "unexpected-end": 5, "missing-end": 3}
 
 
+# the token at which the failing construct begins: the statement says "the
+# line on which the offending token or construct actually begins", so the
+# line of either token is accepted
+STARTTOK = {"chain-add": 3, "chain-mul": 3, "nested-call": 5, "member": 3,
+            "second-arg": 6, "undefined-name": 3, "operator-type": 3,
+            "native-type": 0, "explicit-error": 0, "arity": 0, "index": 0,
+            "not-boolean": 1, "deep": 5, "stray-paren": 3,
+            "missing-then": 0, "bad-def": 0, "unexpected-end": 5,
+            "missing-end": 0}
+
+
 def inner_layouts(name, stmt):
     """layouts of the faulty statement itself: None (one line), every single
     boundary broken by a line break or a comment, all boundaries broken"""
@@ -241,12 +252,14 @@ def run_fault(name, stmts, idx, kind, exp, seps, lead, inner=None):
     parts = [lead]
     line = 1 + lead.count("\n")
     stmt_line = []
+    alt_line = None
     for k, s in enumerate(stmts):
         stmt_line.append(line)
         if k == idx and inner is not None:
             toks = L.tokenize(s)
             text_k, tl = L.render(toks, inner)
             stmt_line[k] = line + tl[POSTOK[name]] - 1
+            alt_line = line + tl[STARTTOK[name]] - 1
             parts.append(text_k)
             line += text_k.count("\n")
         else:
@@ -285,8 +298,11 @@ def run_fault(name, stmts, idx, kind, exp, seps, lead, inner=None):
         return text, bad
     if pos.filename != want_file:
         bad.append(("file", want_file, pos.filename))
-    if pos.line != want_line:
-        bad.append(("line", want_line, pos.line))
+    if pos.line != want_line and not (
+            "line" not in exp and alt_line is not None
+            and pos.line == alt_line):
+        bad.append(("line", sorted({want_line, alt_line or want_line}),
+                    pos.line))
     if "stack" in exp:
         st = list(err.stacktrace)
         if len(st) != len(exp["stack"]):
